@@ -61,6 +61,7 @@ pub async fn query_config_list(
 }
 
 pub async fn query_history_config_page(
+    req: HttpRequest,
     request: web::Query<OpsConfigQueryListRequest>,
     config_addr: web::Data<Addr<ConfigActor>>,
 ) -> impl Responder {
@@ -70,6 +71,13 @@ pub async fn query_history_config_page(
             return HttpResponse::InternalServerError().body(err.to_string());
         }
     };
+    let tenant = Arc::new(param.tenant.clone().unwrap_or_default());
+    if !user_namespace_privilege!(req).check_permission(&tenant) {
+        return HttpResponse::Unauthorized().body(format!(
+            "user no such namespace permission: {}",
+            tenant.as_str()
+        ));
+    }
     let cmd = ConfigCmd::QueryHistoryPageInfo(Box::new(param));
     match config_addr.send(cmd).await {
         Ok(res) => {
